@@ -99,7 +99,42 @@ static void scenario(int mode, int depth, bool thr) {
     vrt_outcome("thread=%ld", (long)s[13]);
 }
 
+// start(promise) racing with a direct call of the same promise on another thread: exactly one of them binds the future
+static cocls::async<Counted> simple_body(Guard arg) {
+    (void)arg;
+    vrt_scratch()[1]++;
+    co_return Counted(42);
+}
+static void start_vs_call() {
+    int64_t *s = vrt_scratch();
+    {
+        cocls::future<Counted> f;
+        cocls::promise<Counted> p = f.get_promise();
+        vstd::thread other([&] {
+            vrt_label("competing-call");
+            s[20] = p(Counted(7)) ? 1 : 2;
+        });
+        vrt_label("starter");
+        {
+            auto co = simple_body(Guard());
+            s[21] = co.start(p) ? 1 : 2;
+            // an unstarted coroutine object is destroyed here without running
+        }
+        vrt_label("main");
+        other.join();
+        VRT_CHECK((s[20] == 1) != (s[21] == 1), "async/start-promise-two-winners", "start(promise) returned %s and the competing promise call returned %s", s[21] == 1 ? "true" : "false",
+                  s[20] == 1 ? "true" : "false");
+        VRT_CHECK(s[1] == (s[21] == 1 ? 1 : 0), "async/body-count", "start(promise) returned %s but the body ran %ld times", s[21] == 1 ? "true" : "false", (long)s[1]);
+        observe(f);
+        VRT_CHECK(s[11] == 1 && s[12] == (s[21] == 1 ? 42 : 7), "async/wrong-delivery", "future holds %ld, winner was %s", (long)s[12], s[21] == 1 ? "the coroutine" : "the competing call");
+    }
+    VRT_CHECK(s[10] == 0, "async/raii-balance", "%ld argument guards alive at the end", (long)s[10]);
+    VRT_CHECK(Counted::live() == 0, "async/value-lifetime", "%ld values alive at the end", (long)Counted::live());
+    vrt_outcome("coroutine_won=%d", s[21] == 1);
+}
+
 VRT_REGISTER(reg_async) {
+    vrt::add("async_start-vs-call", [] { start_vs_call(); });
     for (int m = 0; m < NM; m++)
         for (int depth = 1; depth <= 3; depth++)
             for (int thr = 0; thr < 2; thr++)
